@@ -526,8 +526,10 @@ class Spec(object):
 
                 continue
 
-            # Parse inline parameters from value if value is a string.
-            if isinstance(prop_value, str):
+            # Parse inline parameters from value if value is a string that assigns variables.
+            # Any other string is inspected as is so that an expression such as
+            # <% ctx().x=1 %> is not mistaken for an inline parameter.
+            if isinstance(prop_value, str) and prop_name in self._context_inputs:
                 inline_params = args_util.parse_inline_params(prop_value)
 
                 if inline_params:
